@@ -299,6 +299,15 @@ impl<'a> Liar<'a> {
                         let items: Vec<(F::K, F::V)> = (0..n).map(|i| (mk(1 + (c1 + i) % u, tag), mv(i))).collect();
                         let c: Map<F::K, F::V, N> = items.into_iter().collect();
                         drop(c);
+                        // the array constructors compare keys too (few classes, so that keys repeat and the
+                        // lying comparison has something to be inconsistent about)
+                        let spread = 1 + (r7 >> 9) % 3;
+                        let arr: [(F::K, F::V); N] = core::array::from_fn(|i| (mk(1 + ((u64::from(c2) + i as u64 * spread) % 3) as u32, tag), mv(i as u32)));
+                        let c: Map<F::K, F::V, N> = Map::from(arr);
+                        drop(c);
+                        let arr: [F::K; N] = core::array::from_fn(|i| mk(1 + ((u64::from(c3) + i as u64 * spread) % 3) as u32, tag));
+                        let c: Set<F::K, N> = Set::from(arr);
+                        drop(c);
                     }
                     22 => {
                         let _ = format!("{:?}{}{:?}{:?}", mm, mm, mm.iter(), ss);
